@@ -141,8 +141,8 @@ func (c *regexpSimplifyChecker) walk(e syntax.Expr) {
 		}
 
 	case syntax.OpGroupWithFlags:
-		out.WriteString("(")
-		out.WriteString(e.Args[1].Value)
+		out.WriteString("(?")
+		out.WriteString(strings.TrimPrefix(e.Args[1].Value, "?"))
 		out.WriteString(":")
 		c.walk(e.Args[0])
 		out.WriteString(")")
